@@ -1,4 +1,4 @@
-import Acra.Drv.Spec
+import Acra.Drv.SpecAll
 open Acra.Drv
 
 partial def loop (h : IO.FS.Stream) (out : IO.FS.Stream) : IO Unit := do
